@@ -25,16 +25,20 @@ IsPrefix(g, p) == Len(g) <= Len(p) /\ SubSeq(p, 1, Len(g)) = g
 Absent == "absent"
 \* YAML has no tuples or arrays at option level: they come back as lists
 \* (only the OUTER level is converted: a tuple nested inside a sequence stays a tuple)
-Yamlise(v) == IF v \in {"Tuple12", "Arr12"} THEN "List12" ELSE IF v = "TupTup" THEN "ListTup" ELSE v
+\* (a one-element array is a one-element LIST afterwards, a 1 x 2 array a list holding one list: shapes are kept)
+Yamlise(v) == CASE v \in {"Tuple12", "Arr12"} -> "List12" [] v = "TupTup" -> "ListTup" [] v = "Arr1" -> "List1"
+                [] v = "Arr2D" -> "ListList" [] OTHER -> v
 
 VARIABLES store,      \* [LeafPaths -> Values \cup {Absent}]
           groups,     \* set of group paths that exist
           siftType,   \* the sift type carried by the object
           lastGet,    \* result of the last Get
+          witness,    \* the store of ANOTHER configuration object obtained from get_config before the history began
           hist
-vars == <<store, groups, siftType, lastGet, hist>>
+vars == <<store, groups, siftType, lastGet, witness, hist>>
 
-Init == /\ store = [p \in LeafPaths |-> IF p[Len(p)] \in {"newtop", "newkey"} THEN Absent ELSE "Default"]
+InitStore == [p \in LeafPaths |-> IF p[Len(p)] \in {"newtop", "newkey"} THEN Absent ELSE "Default"]
+Init == /\ store = InitStore /\ witness = InitStore
         /\ groups = GroupPaths /\ siftType = "variant" /\ lastGet = "none" /\ hist = <<>>
 Bound == Len(hist) < MaxOps
 ParentsExist(p) == \A g \in GroupPaths : (IsPrefix(g, p) /\ g # p) => g \in groups
@@ -42,24 +46,24 @@ ParentsExist(p) == \A g \in GroupPaths : (IsPrefix(g, p) /\ g # p) => g \in grou
 \* cfg['a/b/c'] = v   ==   cfg['a']['b']['c'] = v
 Set(p, v) == /\ Bound /\ p \in LeafPaths /\ ParentsExist(p)
              /\ store' = [store EXCEPT ![p] = v]
-             /\ hist' = Append(hist, <<"set", p, v>>) /\ UNCHANGED <<groups, siftType, lastGet>>
+             /\ hist' = Append(hist, <<"set", p, v>>) /\ UNCHANGED <<groups, siftType, lastGet, witness>>
 \* del cfg['a/b/c'] : exactly the addressed leaf disappears
 DelLeaf(p) == /\ Bound /\ p \in LeafPaths /\ ParentsExist(p) /\ store[p] # Absent
               /\ store' = [store EXCEPT ![p] = Absent]
-              /\ hist' = Append(hist, <<"del", p, "-">>) /\ UNCHANGED <<groups, siftType, lastGet>>
+              /\ hist' = Append(hist, <<"del", p, "-">>) /\ UNCHANGED <<groups, siftType, lastGet, witness>>
 \* del cfg['a/b'] for a group: the group and everything under it disappear, nothing else
 DelGroup(g) == /\ Bound /\ g \in groups /\ ParentsExist(g)
                /\ groups' = {h \in groups : ~IsPrefix(g, h)}
                /\ store' = [p \in LeafPaths |-> IF IsPrefix(g, p) THEN Absent ELSE store[p]]
-               /\ hist' = Append(hist, <<"del", g, "-">>) /\ UNCHANGED <<siftType, lastGet>>
+               /\ hist' = Append(hist, <<"del", g, "-">>) /\ UNCHANGED <<siftType, lastGet, witness>>
 \* v = cfg['a/b/c']
 Get(p) == /\ Bound /\ p \in LeafPaths /\ ParentsExist(p) /\ store[p] # Absent
           /\ lastGet' = store[p]
-          /\ hist' = Append(hist, <<"get", p, "-">>) /\ UNCHANGED <<store, groups, siftType>>
+          /\ hist' = Append(hist, <<"get", p, "-">>) /\ UNCHANGED <<store, groups, siftType, witness>>
 \* to_yaml_file -> from_yaml_file ; to_yaml_text -> from_yaml_stream ; to_yaml_file -> open() -> from_yaml_stream
 RoundTrip(route) == /\ Bound
                     /\ store' = [p \in LeafPaths |-> Yamlise(store[p])]
-                    /\ hist' = Append(hist, <<"roundtrip", <<route>>, "-">>) /\ UNCHANGED <<groups, siftType, lastGet>>
+                    /\ hist' = Append(hist, <<"roundtrip", <<route>>, "-">>) /\ UNCHANGED <<groups, siftType, lastGet, witness>>
 Next == \/ \E p \in LeafPaths : \E v \in Values : Set(p, v)
         \/ \E p \in LeafPaths : DelLeaf(p) \/ Get(p)
         \/ \E g \in GroupPaths : DelGroup(g)
@@ -67,6 +71,8 @@ Next == \/ \E p \in LeafPaths : \E v \in Values : Set(p, v)
 Spec == Init /\ [][Next]_vars
 
 \* C18
+\* configuration objects are independent: no operation on one is visible in another (nor in a later get_config)
+WitnessUntouched == witness = InitStore
 LeavesNeedParents == \A p \in LeafPaths : store[p] # Absent => ParentsExist(p)
 DeleteExact == [][\A p \in LeafPaths : (hist' # hist /\ hist'[Len(hist')][1] = "del" /\ ~IsPrefix(hist'[Len(hist')][2], p)) => store'[p] = store[p]]_vars
 RoundTripFaithful == [][(hist' # hist /\ hist'[Len(hist')][1] = "roundtrip") =>
@@ -79,5 +85,6 @@ Order == << <<"max_imfs">>, <<"newtop">>, <<"imf_opts", "sd_thresh">>, <<"imf_op
             <<"extrema_opts", "pad_width">>, <<"extrema_opts", "mag_pad_opts", "stat_length">>, <<"extrema_opts", "mag_pad_opts", "newkey">> >>
 Export == PrintT(<<"BEHAVIOUR", Json!ToJson([hist |-> hist, state |-> [i \in 1..Len(Order) |-> store[Order[i]]],
                                            groups |-> [g \in 1..3 |-> (<< <<"imf_opts">>, <<"extrema_opts">>, <<"extrema_opts", "mag_pad_opts">> >>)[g] \in groups],
-                                           lastGet |-> lastGet, siftType |-> siftType])>>)
+                                           lastGet |-> lastGet, siftType |-> siftType,
+                                           witness |-> [i \in 1..Len(Order) |-> witness[Order[i]]]])>>)
 =============================================================================
